@@ -12,9 +12,9 @@ PROPS = {"C05": dict(
     rule=("rapid-generated workloads per lock backend (SQLite on a real database file created with the README schema; DynamoDB and "
           "ETag/S3 through the real constructors and AWS SDK clients against protocol-level loopback fakes): 2-8 clients x 1-8 scripted "
           "operations (fetch / replace with the newest or an older held checkpoint / create / close+reopen) on 1-3 log IDs, unique values "
-          "of classes plain, NUL+non-UTF-8 bytes, large (4 KiB-300 KB), empty, nil; optional preseed; 1-2 phases with every store object "
+          "of classes plain, NUL+non-UTF-8 bytes, large (4 KiB / 70 KB / 300 KB), empty, nil; optional preseed; 1-2 phases with every store object "
           "closed in between; clients are goroutines on one store object, goroutines on separate store objects/connections, or separate OS "
-          "processes (test binary re-executed), all stamped with raw CLOCK_MONOTONIC; a fresh store object finally reads everything back. "
+          "processes (test binary re-executed, kept in a pool, store opened and closed per job), all stamped with raw CLOCK_MONOTONIC; a fresh store object finally reads everything back. "
           "non-trivial = the recorded history has >= 2 mutating operations on one log ID whose invoke/return intervals overlap and of which "
           ">= 1 failed its precondition; distinct = hash of the canonical case descriptor (backend, mode, ids, preseed, all scripts)"),
     assumptions=[
@@ -26,12 +26,12 @@ PROPS = {"C05": dict(
         "no faults are injected: a Replace/Create that fails for another reason than its precondition is accepted only as SQLITE_BUSY/LOCKED",
     ],
     technique="concurrent history recording + porcupine CAS-register linearizability check + direct invariants + request audit on protocol fakes",
-    budget={"quick": 600, "thorough": 7200},
+    budget={"quick": 600, "thorough": 3000},
     units=[
         rapid("ctlog", "internal/ctlog", "^TestVerifC05SQLite$", 150, 600),
         rapid("ctlog", "internal/ctlog", "^TestVerifC05DynamoDB$", 150, 600),
         rapid("ctlog", "internal/ctlog", "^TestVerifC05ETag$", 150, 600),
-        rapid("ctlog", "internal/ctlog", "^TestVerifC05Procs$", 100, 300),
+        rapid("ctlog", "internal/ctlog", "^TestVerifC05Procs$", 100, 200),
         _thorough_only(rapid("ctlog", "internal/ctlog", "^TestVerifC05(SQLite|DynamoDB|ETag)$", 0, 150, ts=4), race=True),
         _thorough_only(rapid("ctlog", "internal/ctlog", "^TestVerifC05Procs$", 0, 100, ts=2), race=True),
     ])}
